@@ -593,7 +593,7 @@ def call(bezier, strategy, route, arr1, arr2):
 
 
 def columns(out):
-    return [(Fr(float(out[0, c])), Fr(float(out[1, c]))) for c in range(out.shape[1])]
+    return C.finite_cols(out)[0]
 
 
 def fcols(cols):
@@ -846,6 +846,10 @@ def check_compare(bezier, res, probe, c, route):
             return
     gcols = columns(og) if sg == "ok" else None
     acols = columns(oa) if sa == "ok" else None
+    for st, out, strategy in ((sg, og, "geometric"), (sa, oa, "algebraic")):
+        if st == "ok" and C.finite_cols(out)[1]:
+            fail(res, "non-finite-parameter:" + strategy, "%s: the %s strategy returns a NaN / infinite parameter: %s" %
+                 (where, strategy, out.tolist()), rc)
     shown = "certified roots %s; geometric %s; algebraic %s" % (
         str([(float(r.mid()[0]), float(r.mid()[1])) for r in roots]),
         fcols(gcols) if gcols is not None else "raised " + og, fcols(acols) if acols is not None else "raised " + oa)
